@@ -42,24 +42,28 @@ type appConn struct {
 // Obs are harness-side observations used for class labels and shape keys.
 // Nothing in here is read from litestream internals.
 type Obs struct {
-	WALRestarts       int  // WAL header salts changed between two steps
+	WALRestarts        int // WAL header salts changed between two steps
 	WALRestartSinceAck bool
-	ShrinkThenGrow    bool
-	shrunk            bool
-	lastPages         int64
-	AppCkptWhileOpen  int
-	AckInOpenTx       int  // acks while an app write txn was open
-	AckWithSpill      int  // acks/syncs while uncommitted frames were physically in the WAL
-	SyncWithSpill     int
-	RollbackSpilled   int  // rollbacks whose frames had spilled
-	ChunkedSync       int  // syncs where MaxSyncWALBytes < pending WAL bytes
-	Acks              int
-	AckErrors         int
-	LSErrors          map[string]int
-	AppErrors         map[string]int
-	AppSkipped        int
-	Commits           int
-	lastSalt          [2]uint32
+	ShrinkThenGrow     bool
+	shrunk             bool
+	lastPages          int64
+	AppCkptWhileOpen   int
+	AckInOpenTx        int // acks while an app write txn was open
+	AckWithSpill       int // acks/syncs while uncommitted frames were physically in the WAL
+	SyncWithSpill      int
+	RollbackSpilled    int // rollbacks whose frames had spilled
+	ChunkedSync        int // syncs where MaxSyncWALBytes < pending WAL bytes
+	Acks               int
+	AckErrors          int
+	LSErrors           map[string]int
+	AppErrors          map[string]int
+	AppSkipped         int
+	Commits            int
+	HookFired          int // interleave entries executed inside a litestream phase hook
+	HookLate           int // entries whose phase did not occur (executed after the op)
+	HookCommits        int // entries that committed an application transaction inside the hook
+	HookLockHeld       int // entries that left an application write transaction open when the hook returned
+	lastSalt           [2]uint32
 }
 
 // World is one executing case.
@@ -90,9 +94,17 @@ type World struct {
 	// NoFastRef forces every reference image through SQLite's own recovery (used when litestream runs in another
 	// process that may be killed mid-transaction, leaving committed-looking frames the live wal-index does not list).
 	NoFastRef bool
-	ctr  uint64
-	Obs  Obs
-	ctx  context.Context
+	ctr       uint64
+	Obs       Obs
+	ctx       context.Context
+
+	// interleaving state (interleave.go)
+	pend          []*pendingAt
+	phaseCount    map[string]int
+	inHook        bool
+	OpCommits     int            // application commits executed inside hooks of the current / last litestream op
+	OpLateCommits int            // commits of entries executed after the op because their phase never occurred
+	PhasesFired   map[string]int // phase -> number of entries executed there
 }
 
 // StepResult is the outcome of one op.
@@ -824,6 +836,11 @@ func (w *World) LSStep(o Op) StepResult {
 	}
 	var err error
 	acking := false
+	w.OpCommits, w.OpLateCommits = 0, 0
+	if len(o.X) > 0 {
+		w.installInterleave(o.X)
+		defer w.finishInterleave()
+	}
 	switch o.K {
 	case "sync":
 		err = w.DB.Sync(w.ctx)
